@@ -670,6 +670,8 @@ func recoverAndCheck(l *loaded, ic imgCase, dir string) (ps []ledger.Problem, br
 		}
 	}
 	opts := l.tf.Cfg.options()
+	capLog := &capLogger{}
+	opts.WithLogger(capLog)
 	if os.Getenv("VERIF_C03_VERBOSE") != "" {
 		opts.WithLogger(logger.NewSimpleLoggerWithLevel("c03", os.Stderr, logger.LogDebug))
 	}
@@ -869,7 +871,12 @@ func recoverAndCheck(l *loaded, ic imgCase, dir string) (ps []ledger.Problem, br
 		}
 	}
 	if err != nil {
-		add("R6/new-commit-refused", "the recovered database refuses a new commit: %v", err)
+		sig := "R6/new-commit-refused"
+		if why := capLog.syncError(); why != "" && errors.Is(err, context.DeadlineExceeded) {
+			// the commit never completes because the store's syncer fails on every round: name the error
+			sig += "/syncer-keeps-failing:" + why
+		}
+		add(sig, "the recovered database refuses a new commit: %v%s", err, capLog.tail())
 	} else {
 		// the new commit must not have damaged what was recovered (e.g. by writing over reloaded txs)
 		for id := uint64(1); id <= n; id++ {
@@ -1204,4 +1211,51 @@ func dualDiag(p *store.DualProof, src ackMark, hdrs []*store.TxHeader) string {
 		out = append(out, fmt.Sprintf("last inclusion in the target tree of size %d%s", th.BlTxID, real))
 	}
 	return fmt.Sprintf(" [source BlTxID %d, target BlTxID %d; failing parts: %s]", sh.BlTxID, th.BlTxID, strings.Join(out, "; "))
+}
+
+// capLogger keeps the error messages the store logs during one recovery check (the store reports a failing
+// background syncer only there); they name the cause of a commit that never completes.
+type capLogger struct {
+	mu   sync.Mutex
+	errs map[string]int
+}
+
+func (c *capLogger) Errorf(f string, a ...interface{}) {
+	c.mu.Lock()
+	if c.errs == nil {
+		c.errs = map[string]int{}
+	}
+	if len(c.errs) < 32 {
+		c.errs[fmt.Sprintf(f, a...)]++
+	} else if m := fmt.Sprintf(f, a...); c.errs[m] > 0 {
+		c.errs[m]++
+	}
+	c.mu.Unlock()
+}
+func (c *capLogger) Warningf(string, ...interface{}) {}
+func (c *capLogger) Infof(string, ...interface{})    {}
+func (c *capLogger) Debugf(string, ...interface{})   {}
+func (c *capLogger) Close() error                    { return nil }
+
+// syncError: the (normalised) error the syncer reported, "" if none.
+func (c *capLogger) syncError() string {
+	c.mu.Lock()
+	defer c.mu.Unlock()
+	for m := range c.errs {
+		if strings.Contains(m, "while syncing transactions") {
+			m = strings.TrimSuffix(strings.TrimSpace(m), ": while syncing transactions")
+			return strings.ReplaceAll(strings.ReplaceAll(m, " ", "-"), ":", "")
+		}
+	}
+	return ""
+}
+
+func (c *capLogger) tail() string {
+	c.mu.Lock()
+	defer c.mu.Unlock()
+	out := ""
+	for m, n := range c.errs {
+		out += fmt.Sprintf("; store log: %q x%d", m, n)
+	}
+	return out
 }
